@@ -39,6 +39,8 @@ type Inst struct {
 	// Discover (fetch_background): while the instance is observed, certificates naming distribution points it has
 	// not seen before keep arriving, one every 3/8 T
 	Discover bool `json:"discover,omitempty"`
+	// Form of the instance's lists: "" v2 with cRLNumber | "nonumber" | "v1" (a CA that does not number its lists)
+	Form string `json:"form,omitempty"`
 }
 
 // Case is 1..4 instances running together.
@@ -64,6 +66,7 @@ func genCase(t *rapid.T) Case {
 			Decoy:      rapid.SampledFrom([]string{"none", "none", "garbage", "http500", "badsig"}).Draw(t, l+"decoy"),
 			Restart:    rapid.IntRange(0, 2).Draw(t, l+"restart") == 0,
 			Discover:   rapid.IntRange(0, 2).Draw(t, l+"discover") == 0,
+			Form:       rapid.SampledFrom([]string{"", "", "nonumber", "v1"}).Draw(t, l+"form"),
 		})
 	}
 	return c
@@ -144,6 +147,7 @@ func runCase(c Case, x *ev.Ctx) error {
 		r := &running{inst: in, origin: world.NewOrigin()}
 		name := fmt.Sprintf("c15-%d-%d-%d", os.Getpid(), id, i)
 		r.pki = world.NewSimplePKI(name, "p256a", "")
+		r.pki.Form = r.inst.Form
 		r.sib = world.NewSimplePKI(name, "p256b", "")
 		r.v1 = r.pki.CRL(1, "0a")
 		r.v2 = r.pki.CRL(2, "0a", "0b")
